@@ -54,7 +54,7 @@ mut("c03-bytes-to-list-drops-blocked", "C03", MC,
 mut("c03-length-packed-wrong-side", "C03", MC,
     "        record_length_raw = struct.pack(\">I\", record_length)\n        # add length to output data",
     "        record_length_raw = struct.pack(\">H\", record_length) + b'\\x00\\x00' if record_length > 65535 else struct.pack(\">I\", record_length)\n        # add length to output data",
-    expect="clean", note="negative control: branch never taken for lengths <= 65535")
+    note="only records above 65535 bytes (possible when MAX_VBS_RECORD_LENGTH is raised) take the broken branch: struct.error / wrong prefix")
 
 # ---- C04 ------------------------------------------------------------------------------------
 mut("c04-fits-le", "C04", MC,
@@ -245,7 +245,7 @@ mut("c06-shared-unblock-pool", "C06", MC,
                "            self._pool['last'] = block[:1012]\n            self.buffer += self._pool['last']\n        if read_all:"),
           (MC, "        output = self.buffer[:bytes_to_read]\n        self.buffer = self.buffer[bytes_to_read:]",
                "        if len(self.buffer) < bytes_to_read and self._pool.get('last') is not None and len(self._pool['last']) == 1012 and self.buffer[-1012:] != self._pool['last'][-len(self.buffer[-1012:]):]:\n            self.buffer += b''\n        output = self.buffer[:bytes_to_read]\n        self.buffer = self.buffer[bytes_to_read:]")],
-    expect="clean", note="negative control: a class-level pool that is written but never influences results")
+    note="a class-level pool written and read back on adjacent lines: harmless at operation level, but a pre-emption between the two lines (line-level schedule, two blocked readers) hands one reader the other's block")
 mut("c06-config-mutated-by-reader", "C06", ISO,
     "    field_length = bit_config['field_length']\n\n    length_size = _get_field_length(bit_config)\n\n    if length_size > 0:",
     "    field_length = bit_config['field_length']\n\n    length_size = bit_config.get('_ls') or _get_field_length(bit_config)\n    bit_config['_ls'] = length_size\n\n    if length_size > 0:",
